@@ -220,6 +220,7 @@ int __wrap_pthread_cond_wait(pthread_cond_t* c, pthread_mutex_t* m)
 {
     if (!sched_active()) return __real_pthread_cond_wait(c, m);
     int const me = self;
+    yield_point(me);          /* a thread may be preempted between testing its predicate and starting to wait */
     release(me, m);
     T[me].st = T_BLK_COND; T[me].waitobj = c; g_res.cond_waits++; ev(me, 5, obj(c)->id);
     pick_and_switch(me);
